@@ -2,7 +2,7 @@
    pyipmi/ipmitool.py run in-process). *)
 From Coq Require Import String Ascii.
 From Coq Require Import NArith ZArith List Bool.
-From PyIpmi Require Import Lib.Res Lib.Bytes Lib.Prog Model.Cli Gen.CliTable.
+From PyIpmi Require Import Lib.Res Lib.Bytes Lib.Prog Model.Cli Model.CliApi Gen.CliTable.
 Import ListNotations.
 Open Scope string_scope.
 Open Scope list_scope.
@@ -106,3 +106,13 @@ Definition run_end_eqb (a b : run_end) : bool :=
 Definition chk_run (fault : option (istep * err)) (calls : list istep) (e : run_end) : bool :=
   let '(c, r) := main_run run_shape exit_table fault in
   list_eqb istep_eqb c calls && run_end_eqb r e.
+
+(* the request of a single-call command, computed from call_specs + the regenerated operation
+   content (Model.CliApi.cli_request), against the request the tool really sent *)
+Definition chk_cli_request (name : string) (args : list string) (obs : option request) : bool :=
+  match cli_request call_specs name args, obs with
+  | Some a, Some b => N.eqb (q_netfn a) (q_netfn b) && N.eqb (q_cmd a) (q_cmd b) && N.eqb (q_lun a) (q_lun b)
+                      && bytes_eqb (q_data a) (q_data b)
+  | None, None => true
+  | _, _ => false
+  end.
